@@ -1,8 +1,912 @@
 package server
 
-// C11 layer 2 (leader + followers behind a fault proxy) - under construction.
+// C11 layer 2: leader + 1..2 followers in one process. Each follower's `slaveof` is a harness-owned
+// TCP proxy in front of the leader's port. Leader->follower bytes pass untouched; in the
+// follower->leader direction the proxy parses 64-byte frames and owns the acknowledgement frames
+// (LockResultCommand, frame[2]==COMMAND_LOCK, frame[19]==Result, LockId at 22, LockKey at 38):
+//   stall f            - hold every ack frame of follower f in the proxy (the acks are "delayed")
+//   unstall f pass     - forward the held frames in order, keep forwarding
+//   unstall f negate   - forward the held frames with Result=RESULT_ERROR (negative ack), then pass
+//   unstall f drop     - discard the held frames and cut the connection (acks lost); no reconnect
+// The proxy counts, per key/LockId, the positive ack frames it has handed to the leader's socket; the
+// count is taken *before* the write, so "forwarded" precedes anything the leader does with the frame.
+//
+// Followers join before the workload starts and the harness waits for the handshake (the join-time
+// races of replication belong to C09). The leader runs on a harness-owned clock that starts at the wall
+// clock (followers compute expiry from the record's command time with their own clock).
+//
+// Real sockets: every wait has a watchdog; a miss is reported as inconclusive, never as a violation.
+
+import (
+	"fmt"
+	"io"
+	"net"
+	"runtime"
+	"strings"
+	"sync"
+	"sync/atomic"
+	"time"
+
+	"github.com/snower/slock/protocol"
+)
+
+type k11Node struct {
+	inst   *vInst
+	ln     net.Listener
+	addr   string
+	closed int32
+}
+
+func k11StartNode(o vInstOpts, startSync bool) (*k11Node, error) {
+	ln, err := net.Listen("tcp", "127.0.0.1:0")
+	if err != nil {
+		return nil, err
+	}
+	o.Port = uint(ln.Addr().(*net.TCPAddr).Port)
+	inst, err := vNewInst(o)
+	if err != nil {
+		_ = ln.Close()
+		return nil, err
+	}
+	n := &k11Node{inst: inst, ln: ln, addr: ln.Addr().String()}
+	inst.server.server = ln
+	go func() {
+		for {
+			conn, aerr := ln.Accept()
+			if aerr != nil {
+				return
+			}
+			stream := NewStream(conn)
+			if inst.server.addStream(stream) != nil {
+				_ = stream.Close()
+				continue
+			}
+			go inst.server.handle(stream)
+		}
+	}()
+	if startSync {
+		if err = inst.slock.replicationManager.StartSync(); err != nil {
+			n.close(false)
+			return nil, err
+		}
+	}
+	return n, nil
+}
+
+func (n *k11Node) close(removeDir bool) {
+	if !atomic.CompareAndSwapInt32(&n.closed, 0, 1) {
+		return
+	}
+	_ = n.ln.Close()
+	_ = n.inst.server.CloseStreams()
+	n.inst.vClose(false, removeDir)
+}
+
+// ---------------------------------------------------------------------------------------------
+// proxy
+
+type k11Proxy struct {
+	ln     net.Listener
+	addr   string
+	target string
+	idx    int
+
+	mu       sync.Mutex
+	conns    []net.Conn
+	replConn net.Conn // leader side of the replication connection
+	stalled  bool
+	held     [][]byte
+	dead     bool // connection cut by the harness; no reconnect
+	closed   bool
+	positive map[string]int // key/lockid -> positive ack frames handed to the leader
+	negative map[string]int
+	seen     int
+	log      []string
+	onAck    func() // called (without the mutex) after a frame was handed over
+}
+
+func k11NewProxy(idx int, target string) (*k11Proxy, error) {
+	ln, err := net.Listen("tcp", "127.0.0.1:0")
+	if err != nil {
+		return nil, err
+	}
+	p := &k11Proxy{ln: ln, addr: ln.Addr().String(), target: target, idx: idx, positive: map[string]int{}, negative: map[string]int{}}
+	go func() {
+		for {
+			c, aerr := ln.Accept()
+			if aerr != nil {
+				return
+			}
+			go p.serve(c)
+		}
+	}()
+	return p, nil
+}
+
+func k11AckId(frame []byte) string {
+	return fmt.Sprintf("%d/%x", (int(frame[38])|int(frame[39])<<8)-1, frame[22:38])
+}
+
+func (p *k11Proxy) logf(format string, a ...interface{}) {
+	p.log = append(p.log, fmt.Sprintf(format, a...))
+}
+
+func (p *k11Proxy) serve(c net.Conn) {
+	p.mu.Lock()
+	if p.closed || p.dead {
+		p.mu.Unlock()
+		_ = c.Close()
+		return
+	}
+	p.conns = append(p.conns, c)
+	p.mu.Unlock()
+	s, err := net.DialTimeout("tcp", p.target, 2*time.Second)
+	if err != nil {
+		_ = c.Close()
+		return
+	}
+	p.mu.Lock()
+	if p.closed || p.dead {
+		p.mu.Unlock()
+		_ = c.Close()
+		_ = s.Close()
+		return
+	}
+	p.conns = append(p.conns, s)
+	p.replConn = s
+	p.mu.Unlock()
+	// leader -> follower: untouched
+	go func() {
+		_, _ = io.Copy(c, s)
+		_ = c.Close()
+		_ = s.Close()
+	}()
+	// follower -> leader: frame by frame
+	hdr := make([]byte, 64)
+	for {
+		if _, err = io.ReadFull(c, hdr); err != nil {
+			break
+		}
+		frame := append([]byte{}, hdr...)
+		if frame[0] == byte(protocol.MAGIC) && frame[2] == protocol.COMMAND_CALL {
+			cl := int(uint32(frame[22]) | uint32(frame[23])<<8 | uint32(frame[24])<<16 | uint32(frame[25])<<24)
+			if cl > 0 {
+				body := make([]byte, cl)
+				if _, err = io.ReadFull(c, body); err != nil {
+					break
+				}
+				frame = append(frame, body...)
+			}
+			if _, err = s.Write(frame); err != nil {
+				break
+			}
+			continue
+		}
+		if frame[0] == byte(protocol.MAGIC) && frame[2] == protocol.COMMAND_LOCK {
+			if frame[20]&protocol.LOCK_FLAG_CONTAINS_DATA != 0 {
+				// not produced by the follower ack path; forward raw if it ever happens
+				p.mu.Lock()
+				p.logf("ack frame with data flag - forwarded raw")
+				p.mu.Unlock()
+			}
+			p.mu.Lock()
+			p.seen++
+			if p.stalled {
+				p.held = append(p.held, frame)
+				p.logf("ack #%d for %s result=%d HELD", p.seen, k11AckId(frame), frame[19])
+				p.mu.Unlock()
+				continue
+			}
+			ok := p.forwardLocked(s, frame)
+			cb := p.onAck
+			p.mu.Unlock()
+			if cb != nil {
+				cb()
+			}
+			if !ok {
+				break
+			}
+			continue
+		}
+		// handshake "started" frame and anything else
+		if _, err = s.Write(frame); err != nil {
+			break
+		}
+	}
+	_ = c.Close()
+	_ = s.Close()
+}
+
+// forwardLocked counts, then writes. Caller holds p.mu (keeps count and write atomic with respect to
+// the harness reading the counters).
+func (p *k11Proxy) forwardLocked(s net.Conn, frame []byte) bool {
+	id := k11AckId(frame)
+	if frame[19] == 0 {
+		p.positive[id]++
+	} else {
+		p.negative[id]++
+	}
+	p.logf("ack for %s result=%d -> leader", id, frame[19])
+	_, err := s.Write(frame)
+	return err == nil
+}
+
+func (p *k11Proxy) stall() {
+	p.mu.Lock()
+	p.stalled = true
+	p.logf("stall")
+	p.mu.Unlock()
+}
+
+// unstall returns the number of frames that were held.
+func (p *k11Proxy) unstall(mode string) (n int) {
+	p.mu.Lock()
+	held := p.held
+	p.held = nil
+	n = len(held)
+	p.logf("unstall mode=%s held=%d", mode, n)
+	switch mode {
+	case "drop":
+		p.dead = true
+		p.stalled = false
+		conns := p.conns
+		p.conns = nil
+		p.mu.Unlock()
+		for _, c := range conns {
+			_ = c.Close()
+		}
+		return
+	case "negate":
+		for _, f := range held {
+			f[19] = protocol.RESULT_ERROR
+		}
+	}
+	s := p.replConn
+	for _, f := range held {
+		if s != nil {
+			p.forwardLocked(s, f)
+		}
+	}
+	p.stalled = false
+	cb := p.onAck
+	p.mu.Unlock()
+	if cb != nil && n > 0 {
+		cb()
+	}
+	return
+}
+
+func (p *k11Proxy) close() {
+	p.mu.Lock()
+	p.closed = true
+	conns := p.conns
+	p.conns = nil
+	p.mu.Unlock()
+	_ = p.ln.Close()
+	for _, c := range conns {
+		_ = c.Close()
+	}
+}
+
+// ---------------------------------------------------------------------------------------------
+// cluster environment
+
+type k11Cluster struct {
+	c       *k11Case
+	e       *k11Env
+	leader  *k11Node
+	fol     []*k11Node
+	prox    []*k11Proxy
+	demoted   bool
+	deadlocked bool
+	abandon    bool // the leader is wedged: do not run its teardown
+	clockOnly bool // final phase: pending requests wait for their timeout only
+}
+
+const k11Watch = 4 * time.Second
+
+func k11InstOpts(c *k11Case) vInstOpts {
+	return vInstOpts{DBConcurrent: uint(c.Conc), DBFastKeyCount: uint(c.FastKeys), AofFileBufferSize: uint(c.AofBuf), AofAckMode: uint(c.AckMode), NoCheckLoop: true}
+}
+
+func (cl *k11Cluster) alive() int {
+	n := 0
+	for _, p := range cl.prox {
+		p.mu.Lock()
+		if !p.dead {
+			n++
+		}
+		p.mu.Unlock()
+	}
+	return n
+}
+
+// needed follower acks for a cluster of n connected followers
+func k11Needed(mode, n int) int {
+	if mode == 1 {
+		return (n+1)/2 + 1 - 1
+	}
+	return n
+}
+
+// stuck: can an ack-required request registered now be completed without the harness unstalling?
+func (cl *k11Cluster) stuck() bool {
+	free := 0
+	for _, p := range cl.prox {
+		p.mu.Lock()
+		if !p.dead && !p.stalled {
+			free++
+		}
+		p.mu.Unlock()
+	}
+	return free < k11Needed(cl.c.AckMode, cl.alive())
+}
+
+func (cl *k11Cluster) close() {
+	for _, p := range cl.prox {
+		p.close()
+	}
+	if cl.e != nil {
+		cl.e.closeClients()
+	}
+	var wg sync.WaitGroup
+	for _, f := range cl.fol {
+		wg.Add(1)
+		go func(f *k11Node) { defer wg.Done(); f.close(true) }(f)
+	}
+	wg.Wait()
+	if cl.leader != nil {
+		if cl.abandon {
+			_ = cl.leader.ln.Close()
+			atomic.AddInt64(&vAbandoned, 1)
+			return
+		}
+		cl.leader.close(true)
+	}
+}
+
+func k11NewCluster(c *k11Case) (*k11Cluster, string) {
+	cl := &k11Cluster{c: c}
+	o := k11InstOpts(c)
+	o.DataDir = vScratchDir("k11-leader")
+	leader, err := k11StartNode(o, false)
+	if err != nil {
+		return nil, "leader: " + err.Error()
+	}
+	cl.leader = leader
+	for i := 0; i < c.Followers; i++ {
+		p, perr := k11NewProxy(i, leader.addr)
+		if perr != nil {
+			cl.close()
+			return nil, "proxy: " + perr.Error()
+		}
+		cl.prox = append(cl.prox, p)
+		fo := k11InstOpts(c)
+		fo.DataDir = vScratchDir(fmt.Sprintf("k11-f%d", i))
+		fo.SlaveOf = p.addr
+		f, ferr := k11StartNode(fo, true)
+		if ferr != nil {
+			cl.close()
+			return nil, "follower: " + ferr.Error()
+		}
+		cl.fol = append(cl.fol, f)
+		// wait for the handshake: leader has i+1 server channels, follower reached STATE_FOLLOWER
+		deadline := time.Now().Add(k11Watch)
+		for {
+			mgr := leader.inst.slock.replicationManager
+			mgr.glock.Lock()
+			n := len(mgr.serverChannels)
+			mgr.glock.Unlock()
+			if n == i+1 && f.inst.slock.state == STATE_FOLLOWER {
+				break
+			}
+			if time.Now().After(deadline) {
+				cl.close()
+				return nil, fmt.Sprintf("follower %d did not finish the handshake (leader channels %d, follower state %d)", i, n, f.inst.slock.state)
+			}
+			time.Sleep(200 * time.Microsecond)
+		}
+	}
+	e, err := k11NewEnv(c, vInstOpts{}, leader.inst)
+	if err != nil {
+		cl.close()
+		return nil, "env: " + err.Error()
+	}
+	cl.e = e
+	e.now = time.Now().Unix()
+	e.epoch = e.now
+	d := e.db
+	d.currentTime, d.checkTimeoutTime, d.checkExpriedTime = e.now, e.now, e.now
+	e.ackGate = cl.gate
+	e.stuck = cl.stuck
+	e.anyNegative = func(r *k11Req) bool {
+		id := fmt.Sprintf("%d/%x", r.Op.Key, r.LockId)
+		for _, p := range cl.prox {
+			p.mu.Lock()
+			n := p.negative[id]
+			p.mu.Unlock()
+			if n > 0 {
+				return true
+			}
+		}
+		return false
+	}
+	return cl, ""
+}
+
+// gate: at SUCCED time of an ack-required request, enough positive ack frames must have been forwarded.
+// Sound lower bound: the requirement of the followers still connected now (connections only go away).
+func (cl *k11Cluster) gate(r *k11Req) string {
+	id := fmt.Sprintf("%d/%x", r.Op.Key, r.LockId)
+	need := k11Needed(cl.c.AckMode, cl.alive()) * cl.e.succ[id]
+	got := 0
+	for _, p := range cl.prox {
+		p.mu.Lock()
+		got += p.positive[id]
+		p.mu.Unlock()
+	}
+	if need > 0 {
+		cl.e.info.decidedByFollower++
+	}
+	if got < need {
+		return fmt.Sprintf("when the proxies had forwarded %d positive acknowledgement frame(s) for it; ack mode %d with %d connected follower(s) needs %d", got, cl.c.AckMode, cl.alive(), need)
+	}
+	return ""
+}
+
+func (cl *k11Cluster) proxyLogs() string {
+	var sb strings.Builder
+	for i, p := range cl.prox {
+		p.mu.Lock()
+		fmt.Fprintf(&sb, "proxy of follower %d (dead=%v stalled=%v):\n", i, p.dead, p.stalled)
+		l := p.log
+		if len(l) > 60 {
+			l = l[len(l)-60:]
+		}
+		for _, x := range l {
+			sb.WriteString("    " + x + "\n")
+		}
+		p.mu.Unlock()
+	}
+	return sb.String()
+}
+
+// settle waits until nothing asynchronous is outstanding: leader persistence idle, no unanswered
+// ack-pending request unless it is stuck behind a stalled / dead follower, followers' queues idle.
+// Returns (stable, inconclusive).
+func (cl *k11Cluster) settle() (bool, string) {
+	e := cl.e
+	deadline := time.Now().Add(k11Watch)
+	for {
+		if !vAofIdle(e.inst.slock.aof) {
+			return false, "leader persistence queue did not drain"
+		}
+		e.classify()
+		e.mu.Lock()
+		pend := e.pendingUnanswered()
+		e.mu.Unlock()
+		if len(pend) == 0 {
+			return true, ""
+		}
+		if cl.stuck() || cl.demoted || cl.clockOnly {
+			// pending requests legitimately wait for the harness
+			held := 0
+			for _, p := range cl.prox {
+				p.mu.Lock()
+				held += len(p.held)
+				p.mu.Unlock()
+			}
+			_ = held
+			return false, ""
+		}
+		if time.Now().After(deadline) {
+			return false, fmt.Sprintf("ack-required request #%d unanswered after the watchdog although no follower is stalled\n%s", pend[0].Idx, cl.proxyLogs())
+		}
+		time.Sleep(200 * time.Microsecond)
+	}
+}
+
+// waitHeld waits until every stalled live proxy holds at least one frame per pending request, so that
+// "pending" is a settled state (used before asserting LOCK_ACK_WAITING).
+func (cl *k11Cluster) waitFollowersIdle() string {
+	for i, f := range cl.fol {
+		cl.prox[i].mu.Lock()
+		dead := cl.prox[i].dead
+		cl.prox[i].mu.Unlock()
+		if dead {
+			continue
+		}
+		if !vAofIdle(f.inst.slock.aof) {
+			return fmt.Sprintf("follower %d persistence queue did not drain", i)
+		}
+	}
+	return ""
+}
+
+func (cl *k11Cluster) step(op k11Op) string {
+	e := cl.e
+	e.beginStep()
+	switch op.K {
+	case "lock", "unlock":
+		e.send(op)
+	case "tick":
+		e.logf("tick %d", op.N)
+		for s := 0; s < op.N; s++ {
+			e.tickOne()
+			if _, inc := cl.settle(); inc != "" {
+				return inc
+			}
+		}
+	case "stall":
+		if op.F < len(cl.prox) {
+			cl.prox[op.F].mu.Lock()
+			dead := cl.prox[op.F].dead
+			cl.prox[op.F].mu.Unlock()
+			if !dead {
+				cl.prox[op.F].stall()
+				e.logf("stall follower %d", op.F)
+			}
+		}
+	case "unstall":
+		if op.F < len(cl.prox) {
+			p := cl.prox[op.F]
+			p.mu.Lock()
+			was := p.stalled && !p.dead
+			if p.dead {
+				p.stalled = false
+			}
+			p.mu.Unlock()
+			if !was {
+				return ""
+			}
+			// let the follower's acks of everything sent so far reach the proxy first
+			if inc := cl.waitAcksHeld(op.F); inc != "" {
+				return inc
+			}
+			aliveBefore := cl.alive()
+			n := p.unstall(op.Mode)
+			if op.Mode == "drop" {
+				// the leader must have noticed the cut before the next request is registered (else that request
+				// would wait for a follower that is gone - legitimate, but not what the next step wants to test)
+				deadline := time.Now().Add(k11Watch)
+				for {
+					mgr := cl.leader.inst.slock.replicationManager
+					mgr.glock.Lock()
+					nch := len(mgr.serverChannels)
+					mgr.glock.Unlock()
+					if nch <= cl.alive() {
+						break
+					}
+					if time.Now().After(deadline) {
+						return "leader did not drop the server channel of the cut connection within the watchdog"
+					}
+					time.Sleep(200 * time.Microsecond)
+				}
+			}
+			e.mu.Lock()
+			if op.Mode == "drop" && k11Needed(cl.c.AckMode, aliveBefore) > cl.alive() {
+				for _, r := range e.reqs {
+					if r.State == k11Pending && r.Terminal < 0 {
+						r.doomed = true
+					}
+				}
+			}
+			e.logf("unstall follower %d mode=%s (%d frames)", op.F, op.Mode, n)
+			switch op.Mode {
+			case "negate":
+				e.info.ackFramesNegated += n
+				if n > 0 {
+					e.faultActive = "negative-ack"
+				}
+			case "drop":
+				e.info.ackFramesDropped += n
+			default:
+				e.info.ackFramesDelayed += n
+			}
+			e.mu.Unlock()
+		}
+	case "demote":
+		if cl.demoted {
+			return ""
+		}
+		e.mu.Lock()
+		np := len(e.pendingUnanswered())
+		e.info.demotions++
+		if np > 0 {
+			e.info.demotedPending++
+		}
+		e.faultActive = "demotion"
+		e.logf("demote leader (%d ack-pending)", np)
+		e.mu.Unlock()
+		cl.demoted = true
+		if why := cl.demote(); why != "" {
+			return why
+		}
+	}
+	stable, inc := cl.settle()
+	if inc != "" {
+		return inc
+	}
+	if op.K == "unstall" || op.K == "demote" {
+		e.mu.Lock()
+		if e.faultActive == "negative-ack" || (e.faultActive == "demotion" && len(e.pendingUnanswered()) == 0) {
+			if e.faultActive == "negative-ack" {
+				e.faultActive = ""
+			}
+		}
+		e.mu.Unlock()
+	}
+	if stable {
+		e.reconcile("after " + op.String())
+	}
+	return ""
+}
+
+const k11KeyDemote = "C11:leader-demotion-self-deadlock"
+
+// demote runs ReplicationManager.SwitchToFollower("") on the leader. On the unchanged tree that call
+// dead-locks on its own mutex (SwitchToFollower holds ReplicationManager.glock across SLock.updateState,
+// whose quit-leader branch calls WaitServerSynced, which takes the same mutex). While that finding is
+// listed the harness performs the statements of SwitchToFollower itself with the mutex released around
+// updateState (the obvious repair) so that what demotion does to pending acks can still be checked.
+func (cl *k11Cluster) demote() string {
+	e := cl.e
+	mgr := cl.leader.inst.slock.replicationManager
+	sl := cl.leader.inst.slock
+	done := make(chan struct{})
+	emulate := e.known(k11KeyDemote)
+	go func() {
+		defer close(done)
+		if !emulate {
+			_ = mgr.SwitchToFollower("")
+			return
+		}
+		mgr.glock.Lock()
+		mgr.leaderAddress = ""
+		mgr.glock.Unlock()
+		sl.updateState(STATE_FOLLOWER)
+		for _, db := range sl.dbs {
+			if db != nil {
+				for i := uint16(0); i < db.managerMaxGlocks; i++ {
+					db.managerGlocks[i].Lock()
+					db.managerGlocks[i].Unlock()
+				}
+			}
+		}
+		_ = sl.aof.WaitFlushAofChannel()
+		_ = mgr.WakeupServerChannel()
+		_ = mgr.WaitServerSynced()
+		for _, db := range mgr.ackDbs {
+			if db != nil {
+				_ = db.SwitchToFollower()
+			}
+		}
+		mgr.isLeader = false
+	}()
+	select {
+	case <-done:
+		return ""
+	case <-time.After(k11Watch):
+	}
+	// not a timing miss if the goroutine sits in the self-deadlock: look at its stack
+	buf := make([]byte, 1<<20)
+	st := string(buf[:runtime.Stack(buf, true)])
+	for _, blk := range strings.Split(st, "\n\n") {
+		if strings.Contains(blk, "SwitchToFollower") && strings.Contains(blk, "WaitServerSynced") && strings.Contains(blk, "sync.(*Mutex).Lock") {
+			e.mu.Lock()
+			e.viol(k11KeyDemote, "ReplicationManager.SwitchToFollower(\"\") on the leader never returns: it holds ReplicationManager.glock and, through SLock.updateState -> WaitServerSynced, waits for the same mutex:\n%s", k11RepoFrames(blk))
+			e.mu.Unlock()
+			cl.deadlocked = true
+			return ""
+		}
+	}
+	return "demotion did not finish within the watchdog"
+}
+
+// waitAcksHeld: before a stalled proxy is released, wait until the follower has answered every record
+// that is pending on the leader (so that negate / drop really hits the frames of the pending requests).
+func (cl *k11Cluster) waitAcksHeld(f int) string {
+	e := cl.e
+	p := cl.prox[f]
+	if cl.demoted {
+		return "" // a demoted node replicates nothing any more
+	}
+	deadline := time.Now().Add(k11Watch)
+	for {
+		e.classify()
+		e.mu.Lock()
+		var ids []string
+		for _, r := range e.pendingUnanswered() {
+			if r.State == k11Pending {
+				ids = append(ids, fmt.Sprintf("%d/%x", r.Op.Key, r.LockId))
+			}
+		}
+		e.mu.Unlock()
+		p.mu.Lock()
+		missing := ""
+		for _, id := range ids {
+			found := false
+			for _, fr := range p.held {
+				if k11AckId(fr) == id {
+					found = true
+				}
+			}
+			if !found && p.positive[id]+p.negative[id] == 0 {
+				missing = id
+			}
+		}
+		p.mu.Unlock()
+		if missing == "" {
+			return ""
+		}
+		if time.Now().After(deadline) {
+			return fmt.Sprintf("follower %d never acknowledged %s within the watchdog\n%s", f, missing, cl.proxyLogs())
+		}
+		time.Sleep(200 * time.Microsecond)
+	}
+}
+
+// followersAgree: after final quiescence every connected follower holds exactly the leader's holds.
+func (cl *k11Cluster) followersAgree() (viol string, inc string) {
+	e := cl.e
+	lead := map[string]bool{}
+	for _, s := range aSnapshot(0, e.db) {
+		for _, h := range s.Holders {
+			lead[fmt.Sprintf("%x/%x", s.Key[:2], h.Id[:3])] = true
+		}
+	}
+	target := cl.leader.inst.slock.replicationManager.currentAofId
+	for i, f := range cl.fol {
+		cl.prox[i].mu.Lock()
+		dead := cl.prox[i].dead
+		cl.prox[i].mu.Unlock()
+		if dead {
+			continue
+		}
+		deadline := time.Now().Add(k11Watch)
+		for {
+			diff := ""
+			caught := false
+			if cc := f.inst.slock.replicationManager.clientChannel; cc != nil {
+				caught = cc.currentAofId == target || cc.state.recvCount >= 0 && cc.state.replayCount == cc.state.recvCount && cc.state.appendCount == cc.state.recvCount
+			}
+			if vAofIdle(f.inst.slock.aof) {
+				fd := f.inst.slock.dbs[0]
+				got := map[string]bool{}
+				if fd != nil {
+					for _, s := range aSnapshot(0, fd) {
+						for _, h := range s.Holders {
+							got[fmt.Sprintf("%x/%x", s.Key[:2], h.Id[:3])] = true
+						}
+					}
+				}
+				for k := range lead {
+					if !got[k] {
+						diff = "follower lacks hold " + k
+					}
+				}
+				for k := range got {
+					if !lead[k] {
+						diff = "follower still has hold " + k + " (key/LockId prefix) that the leader does not have"
+					}
+				}
+				if diff == "" {
+					e.info.followersChecked++
+					break
+				}
+			}
+			if time.Now().After(deadline) {
+				if caught && diff != "" {
+					return fmt.Sprintf("follower %d: %s after it had replayed everything it received", i, diff), ""
+				}
+				return "", fmt.Sprintf("follower %d did not converge within the watchdog (%s)", i, diff)
+			}
+			time.Sleep(300 * time.Microsecond)
+		}
+	}
+	return "", ""
+}
 
 func k11RunCluster(c *k11Case, replay bool) (out k11Out) {
-	out.inconclusive = "cluster engine not built"
+	cl, inc := k11NewCluster(c)
+	if inc != "" {
+		out.inconclusive = inc
+		return
+	}
+	e := cl.e
+	if replay {
+		e.known = func(string) bool { return false }
+	}
+	finish := func() {
+		e.mu.Lock()
+		out.viols, out.info = e.viols, e.info
+		out.history = e.history() + "\n" + cl.proxyLogs()
+		if out.inconclusive == "" {
+			out.inconclusive = e.inconcl
+		}
+		e.mu.Unlock()
+		cl.close()
+	}
+	defer func() {
+		if p := recover(); p != nil {
+			e.mu.TryLock()
+			e.mu.Unlock()
+			e.viol("C11:panic", "panic in the harness goroutine: %v", p)
+			finish()
+		}
+	}()
+	for _, op := range c.Ops {
+		if inc = cl.step(op); inc != "" {
+			out.inconclusive = inc
+			finish()
+			return
+		}
+		if e.inconcl != "" || cl.deadlocked {
+			if cl.deadlocked {
+				cl.abandon = true
+			}
+			finish()
+			return
+		}
+	}
+	// final: release every stalled proxy, then let pending requests that lost an ack run into their timeout
+	for i := range cl.prox {
+		if inc = cl.step(k11Op{K: "unstall", F: i, Mode: "pass"}); inc != "" {
+			out.inconclusive = inc
+			finish()
+			return
+		}
+	}
+	for i := 0; i < 40; i++ {
+		e.classify()
+		e.mu.Lock()
+		np := len(e.pendingUnanswered())
+		for _, r := range e.reqs {
+			if r.doomed && r.Terminal < 0 {
+				np++
+			}
+		}
+		e.mu.Unlock()
+		if np == 0 {
+			break
+		}
+		cl.clockOnly = true // from here on pending requests are expected to wait for the clock only
+		if inc = cl.step(k11Op{K: "tick", N: 1}); inc != "" {
+			out.inconclusive = inc
+			finish()
+			return
+		}
+	}
+	e.mu.Lock()
+	for _, r := range e.reqs {
+		if r.doomed && r.Terminal < 0 {
+			r.doomed = false
+		}
+	}
+	for _, r := range e.pendingUnanswered() {
+		e.viol("C11:no-reply", "ack-required request #%d (%v) still unanswered %d s after it was sent", r.Idx, r.Op, e.now-r.Time)
+	}
+	e.mu.Unlock()
+	if !vAofIdle(e.inst.slock.aof) {
+		out.inconclusive = "leader persistence queue did not drain at the end"
+		finish()
+		return
+	}
+	e.reconcile("at the end")
+	if len(e.viols) == 0 && !cl.wasDemoted() {
+		v, inc2 := cl.followersAgree()
+		if inc2 != "" {
+			out.inconclusive = inc2
+		} else if v != "" {
+			e.mu.Lock()
+			e.viol("C11:follower-state-differs", "%s", v)
+			e.mu.Unlock()
+		}
+	}
+	finish()
 	return
+}
+
+func (cl *k11Cluster) wasDemoted() bool {
+	return cl.leader.inst.slock.state != STATE_LEADER
 }
